@@ -108,7 +108,7 @@ Lemma step_sim sc s t b o ob s' :
   okwf (sp_step sc t o ob) = true ->
   exists b', Inv s' [] b' /\ Rel s' (sp_step sc t o ob) [] b' /\
              ok08 (sp_step sc t o ob) = ok08 t /\
-             (k9 sc = false -> NoLeak s -> NoLeak s' /\ ok09 (sp_step sc t o ob) = ok09 t).
+             (NoLeak s -> NoLeak s' /\ ok09 (sp_step sc t o ob) = ok09 t).
 Proof.
   intros HI HR Hs Hwf. destruct o as [g|g|g|g|dt]; destruct ob as [r|v|log exc];
     cbn [step] in Hs; try discriminate; cbn [sp_step] in *.
@@ -127,7 +127,7 @@ Proof.
   - (* value *)
     destruct (oz_eqb v _) eqn:Ev; [|discriminate]. injection Hs as <-.
     exists b. split; auto. split; [now apply Rel_flag09|]. split; [reflexivity|].
-    intros _ L. split; auto. sproj. rewrite (r_val _ _ _ _ HR), Ev.
+    intros L. split; auto. sproj. rewrite (r_val _ _ _ _ HR), Ev.
     destruct (memz g (t_fin t)); apply andb_true_r.
   - (* process *)
     unfold process in Hs. destruct (wake s dt log) as [[s1 e1]|] eqn:Ew; [|discriminate].
@@ -147,8 +147,8 @@ Proof.
         destruct (t_due (fold_left (sp_exec sc) log (tick dt (flagwf (0 <=? dt) t)))) as [|x l] eqn:Ed.
         -- unfold tick. sproj. now rewrite !andb_true_r.
         -- exfalso. apply (r_due _ _ _ _ HR3 x). rewrite Ed. now left.
-      * intros K L. assert (L2 : NoLeak (set_active s1 (rotate1 (active s1)))) by (apply HL1, L).
-        destruct (HL3 K L2) as [L3 E9]. split; auto.
+      * intros L. assert (L2 : NoLeak (set_active s1 (rotate1 (active s1)))) by (apply HL1, L).
+        destruct (HL3 L2) as [L3 E9]. split; auto.
         unfold frame_end. sproj. rewrite E9. unfold tick. sproj. cbn [is_ok].
         now rewrite !andb_true_r.
 Qed.
@@ -159,7 +159,7 @@ Lemma run_sim sc tr : forall s t b s',
   okwf (sp_run sc t tr) = true ->
   exists b', Inv s' [] b' /\ Rel s' (sp_run sc t tr) [] b' /\
              ok08 (sp_run sc t tr) = ok08 t /\
-             (k9 sc = false -> NoLeak s -> NoLeak s' /\ ok09 (sp_run sc t tr) = ok09 t).
+             (NoLeak s -> NoLeak s' /\ ok09 (sp_run sc t tr) = ok09 t).
 Proof.
   induction tr as [|[o ob] tr IH]; intros s t b s' HI HR Hr Hwf.
   - injection Hr as <-. exists b. cbn [sp_run]. auto.
@@ -168,7 +168,7 @@ Proof.
     destruct (step_sim _ _ _ _ _ _ _ HI HR Es Hwf1) as (b1 & HI1 & HR1 & H08 & HL1).
     destruct (IH _ _ _ _ HI1 HR1 Hr Hwf) as (b2 & HI2 & HR2 & H08' & HL2).
     exists b2. split; auto. split; auto. split; [congruence|].
-    intros K L. destruct (HL1 K L) as [L1 E1]. destruct (HL2 K L1) as [L2 E2].
+    intros L. destruct (HL1 L) as [L1 E1]. destruct (HL2 L1) as [L2 E2].
     split; auto. congruence.
 Qed.
 
@@ -191,5 +191,5 @@ Proof.
   apply andb_true_iff in Hwf. destruct Hwf as [_ Hwf].
   destruct (run (c_scripts c) st0 (c_trace c)) as [s|] eqn:Er; [|discriminate].
   destruct (run_sim _ _ _ _ _ _ Inv0 Rel0 Er Hwf) as (b & _ & _ & _ & H09).
-  destruct (H09 Hk NoLeak0) as [_ E]. now rewrite E.
+  destruct (H09 NoLeak0) as [_ E]. now rewrite E.
 Qed.
